@@ -105,6 +105,13 @@ func cmdWorker(args []string) {
 	sum := &Summary{Stats: map[string]int{}, Situ: map[string]int{}, RuleCounts: map[string]int{}}
 	shapes := map[uint64]bool{}
 	seenRule := map[string]bool{}
+	// a violation is written out the moment its rule fires: if the process then dies (e.g. an unbounded
+	// re-entry that overflows the stack right after C02.nested fired) the parent still learns of it
+	violationSink = func(v Violation) {
+		b, _ := json.Marshal(v)
+		fmt.Fprintf(bw, "VIOLNOW %s\n", b)
+		bw.Flush()
+	}
 	for i := *lo; i < *hi; i++ {
 		fmt.Fprintf(bw, "BEGIN %d\n", i)
 		bw.Flush()
@@ -162,7 +169,7 @@ func cmdWorker(args []string) {
 }
 
 // parseProgress reads a worker file: last BEGIN without END, and the summary if present.
-func parseProgress(path string) (dangling int, lastEnd int, sum *Summary) {
+func parseProgress(path string) (dangling int, lastEnd int, sum *Summary, pending []Violation) {
 	dangling, lastEnd = -1, -1
 	f, err := os.Open(path)
 	if err != nil {
@@ -176,9 +183,16 @@ func parseProgress(path string) (dangling int, lastEnd int, sum *Summary) {
 		switch {
 		case strings.HasPrefix(l, "BEGIN "):
 			fmt.Sscanf(l, "BEGIN %d", &dangling)
+			pending = nil
+		case strings.HasPrefix(l, "VIOLNOW "):
+			var v Violation
+			if json.Unmarshal([]byte(l[len("VIOLNOW "):]), &v) == nil {
+				pending = append(pending, v)
+			}
 		case strings.HasPrefix(l, "END "):
 			fmt.Sscanf(l, "END %d", &lastEnd)
 			dangling = -1
+			pending = nil
 		case strings.HasPrefix(l, "SUMMARY "):
 			s := &Summary{}
 			if json.Unmarshal([]byte(l[len("SUMMARY "):]), s) == nil {
@@ -302,7 +316,7 @@ func cmdCheck(args []string) {
 					errFile.Close()
 					timedOut := ctx.Err() != nil
 					cancel()
-					dangling, lastEnd, sum := parseProgress(out)
+					dangling, lastEnd, sum, pending := parseProgress(out)
 					mu.Lock()
 					if sum != nil {
 						mergeSummary(total, sum, shapes)
@@ -318,6 +332,12 @@ func cmdCheck(args []string) {
 							crashes = append(crashes, ViolRec{Violation: Violation{Props: []string{"C05", "C14"}, Rule: "process-died",
 								Msg: "worker process died while executing this case: " + tail}, Kind: c.job.Kind, Idx: dangling, Case: cs,
 								Class: witnessClass(cs, "process-died")})
+							// rules that had fired in this case before the process died
+							for _, pv := range pending {
+								pv.Msg += " (the worker process died later in this case: " + tail + ")"
+								crashes = append(crashes, ViolRec{Violation: pv, Kind: c.job.Kind, Idx: dangling, Case: cs, Class: witnessClass(cs, pv.Rule)})
+								total.RuleCounts[pv.Rule]++
+							}
 							// cases before the crash are lost from the summary: rerun them is not needed for the verdict;
 							// continue after the crashing case
 							total.Evaluations += dangling - lo + 1
